@@ -156,14 +156,17 @@ def pair_catalogue(rng, tier='quick'):
             c[k] = rng.choice(alt)
             if legal(c): return c
         return cfg
-    def pair(label, spec, legal, ports, build):
+    def pair(label, spec, legal, ports, build, fixed=None):
         c1 = None
         for _ in range(50):
             c1 = draw(spec)
             if legal(c1): break
-        c2 = mutate(spec, c1, legal) if rng.random() < .8 else next(c for c in iter(lambda: draw(spec), None) if legal(c))
-        cfgs = [(1, c1), (2, c2)]
-        if rng.random() < .5: cfgs.reverse()                       # which one the generator meets first matters
+        if fixed is not None:
+            cfgs = [(1, fixed[0]), (2, fixed[1])]                      # instantiated (and met by the generator) in exactly this order
+        else:
+            c2 = mutate(spec, c1, legal) if rng.random() < .8 else next(c for c in iter(lambda: draw(spec), None) if legal(c))
+            cfgs = [(1, c1), (2, c2)]
+            if rng.random() < .5: cfgs.reverse()                       # which one the generator meets first matters
         ins, outs = [], []
         for k, c in sorted(cfgs):
             pi, po = ports(k, c); ins += pi; outs += po
@@ -172,6 +175,14 @@ def pair_catalogue(rng, tier='quick'):
         out.append(('Pair_' + label, ins, outs, body))
     T = True
     reps = 3 if tier == 'quick' else 10
+    # per-instance structural classes whose KIND depends on a constructor argument: a DelayLine of delay 0 is purely combinational (no clock
+    # port), one of delay >= 1 is sequential; both orders, so that whatever the generator remembers about the class from the first instance
+    # is wrong for the second
+    dl_ports = lambda k, c: ([('a%d' % k, c['w']), ('en%d' % k, 1), ('rs%d' % k, 1)], [('r%d' % k, c['w'])])
+    dl_build = lambda t, i, o, k, c: P.DelayLine(t, 'dl%d' % k, i['a%d' % k], i['en%d' % k], i['rs%d' % k], o['r%d' % k], c['dl'])
+    for d1, d2 in ((0, 2), (2, 0), (0, 1)) if tier == 'quick' else ((0, 2), (2, 0), (0, 1), (1, 0), (3, 0), (0, 3), (1, 2)):
+        w = rng.choice(pool)
+        pair('DelayLine_%d_%d' % (d1, d2), {}, lambda c: T, dl_ports, dl_build, fixed=({'w': w, 'dl': d1}, {'w': rng.choice(pool), 'dl': d2}))
     for _ in range(reps):
         pair('Add', {'wa': pool, 'wb': pool, 'wr': pool}, lambda c: c['wr'] >= c['wa'],            # AddCarryIn asserts width(r) >= width(a)
              lambda k, c: ([('a%d' % k, c['wa']), ('b%d' % k, c['wb'])], [('r%d' % k, c['wr'])]),
